@@ -339,7 +339,9 @@ def gen_case_A(rng, idx, stats):
         else:
             t = {"k": "rules", "b": t, "rules": None}
     add_only = json.dumps(t).count('"merge"') + json.dumps(t).count('"mfail"') + json.dumps(t).count('"rules"') == 0
-    return {"cls": "A", "mode": "full", "cmp_forced": bool(consistent or add_only), "tree": t,
+    # the forced flag of an entry is that of the first contribution to reach it: under merges / renames onto a shared key
+    # it depends on the map iteration order unless all contributions to the key agree
+    return {"cls": "A", "mode": "full", "cmp_forced": bool(add_only or (consistent and not with_rules)), "tree": t,
             "desc": "A n=%d keys=%d max=%s rules=%s" % (n, k, mx, with_rules)}
 
 
@@ -379,7 +381,9 @@ def gen_case_B(rng, idx, stats):
             t = {"k": "mfail", "b": t, "f": sub}
         mode, cmpf = "coarse", False
         if rng.random() < 0.3:
+            # more data after an order-dependent merge: even count+dropped depends on the order now
             t = units_to_nodes(rng, t, gen_tail(rng, names, txns, pol, n))
+            mode = "none"
     if rng.random() < 0.35:
         rules = gen_tree_rules(rng, names)
         t = {"k": "rules", "b": t, "rules": json.dumps(rules)}
@@ -448,7 +452,13 @@ def gen_case_failed_chain(rng, n, with_rules):
 # ----------------------------------------------------------------------------- Coq printing
 
 def cname(s):
-    return cbytes(s.encode("utf-8"))
+    """name as a Coq term: MetricsMonitor.nm decodes the bytes of a hexadecimal number"""
+    b = s.encode("utf-8")
+    if len(b) == 0:
+        return "(@nil N)"
+    if b[0] == 0:
+        return cbytes(b)
+    return "(nm 0x%s%%N)" % b.hex()
 
 
 def cmd(d):
@@ -594,7 +604,7 @@ def which_monitor(i, case, obs, pre):
 
 def run(chk, replay=None):
     st = vlib.std_coq_stage(chk, "PropC07", gen=True)
-    okm, outm = vlib.coq_make(["MetricsMonitor.vo", "RulesMonitor.vo"])
+    okm, outm = vlib.coq_make(["MetricsMonitor.vo", "RulesMonitor.vo", "RulesMonitorProofs.vo"])
     rng = random.Random(chk.seed)
     quick = chk.tier == "quick"
     stats = {}
@@ -603,9 +613,9 @@ def run(chk, replay=None):
         tcases, rcases = rp.get("tables", []), rp.get("rules", [])
     else:
         tcases, rcases = [], []
-        nA, nB, nR = (140, 110, 260) if quick else (1500, 1200, 3000)
+        nA, nB, nR = (140, 110, 260) if quick else (3000, 2500, 8000)
         # fixed shapes first
-        tcases.append(gen_case_capacity_rename(rng, 0, 0, real=True) if False else gen_case_capacity_rename(rng, 2000, 100, real=True))
+        tcases.append(gen_case_capacity_rename(rng, 2000, 100, real=True))
         tcases.append(gen_case_real_overflow(rng))
         for mx, nf in ((1, 1), (3, 2), (5, 4), (8, 3)):
             tcases.append(gen_case_capacity_rename(rng, mx, nf))
@@ -654,19 +664,38 @@ def run(chk, replay=None):
 
     # ---- evaluate in Coq, sharded
     t0 = time.time()
-    shard_t, shard_r = 150, 400
+    shard_t, shard_r = 60, 70
     res = {"t_corr_bad": [], "t_mon_bad": [], "r_corr_bad": [], "r_mon_bad": []}
     jobs = []
-    nsh = max((len(tcases) + shard_t - 1) // shard_t, (len(rcases) + shard_r - 1) // shard_r, 1)
-    for s in range(nsh):
-        jobs.append((s, s * shard_t, min(len(tcases), (s + 1) * shard_t), s * shard_r, min(len(rcases), (s + 1) * shard_r)))
+    # table shards: a case with more than 500 operations gets a shard of its own
+    bounds, start = [], 0
+    for i, c in enumerate(tcases):
+        big = len(json.dumps(c["tree"])) > 60000
+        if big:
+            if start < i:
+                bounds.append((start, i))
+            bounds.append((i, i + 1))
+            start = i + 1
+        elif i + 1 - start >= shard_t:
+            bounds.append((start, i + 1))
+            start = i + 1
+    if start < len(tcases):
+        bounds.append((start, len(tcases)))
+    sid = 0
+    for (a, b) in bounds:
+        jobs.append((sid, a, b, 0, 0))
+        sid += 1
+    for a in range(0, len(rcases), shard_r):
+        jobs.append((sid, 0, 0, a, min(len(rcases), a + shard_r)))
+        sid += 1
+    jobs.sort(key=lambda j: -(j[2] - j[1] == 1))  # big ones first
     from concurrent.futures import ThreadPoolExecutor
 
     def work(j):
         s, ta, tb, ra, rb = j
         ta, ra = min(ta, tb), min(ra, rb)
         return j, eval_shard("cases_c07_%d" % s, tcases[ta:tb], tobs[ta:tb], tpres[ta:tb], ta, rcases[ra:rb], robs[ra:rb], ra)
-    with ThreadPoolExecutor(max_workers=8) as ex:
+    with ThreadPoolExecutor(max_workers=12) as ex:
         results = list(ex.map(work, jobs))
     for (s, ta, tb, ra, rb), (r, cout) in results:
         if r is None:
@@ -730,6 +759,12 @@ def run(chk, replay=None):
         broken.append("theorems of PropC07.v no longer check:\n" + st["log"][-3000:])
     if not okm:
         broken.append("monitor files do not build:\n" + outm[-2000:])
+    for i in res["t_corr_bad"][:3]:
+        chk.replay_file("corr_table_%d.json" % i, {"what": "model/implementation correspondence differs", "tables": [tcases[i]],
+                                                    "observed": tobs[i]})
+    for i in res["r_corr_bad"][:3]:
+        chk.replay_file("corr_rules_%d.json" % i, {"what": "model/implementation correspondence differs", "rules": [rcases[i]],
+                                                    "observed": robs[i]})
     if res["t_corr_bad"]:
         i = res["t_corr_bad"][0]
         broken.append("correspondence Metrics.exec vs MetricTable differs on %d table cases, first %d (%s):\ntree=%s\nobserved=%s"
